@@ -180,10 +180,11 @@ func checkDefs() map[string]*CheckDef {
 				return []RunSpec{
 					{Name: "options", Pkg: app, Entry: "VerifC15Options", Params: map[string]int{"K": tierPick(tier, 3, 4)}, MustCover: []string{"file added", "loader added", "ordered custom loader added"}},
 					{Name: "load", Pkg: ioc + "/configure", Entry: "VerifC15Load", Params: map[string]int{"N": tierPick(tier, 3, 4)}, MustCover: []string{"several loaders", "loader failed"}},
+					{Name: "merge-real-viper", Pkg: ioc + "/configure", Entry: "VerifC15Merge", Params: map[string]int{"N": tierPick(tier, 2, 3)}, MustCover: []string{"merged", "overlapping documents merged", "subtree replaced at run time"}},
 				}
 			},
-			LevelText: "Bounded symbolic model checking of the real app.SetConfig/AddConfigLoader/SetConfigLoader options and configure.AddLoaders/SetLoaders/Initialize/loadConfigure with a recording binder: for every sequence of up to K options and every set of up to N loaders (three classes, unconstrained Order, empty or non-empty payload, one failing): every document of every source that was added reaches the binder exactly once, priority-ordered (file) loaders first, unordered ones in the order added; a failing loader fails Initialize.",
-			LevelNote: "Reduced claim: only 'the right documents reach the binder in the right order, none dropped'. viper's deep merge / last-wins, YAML, ArgsLoader rendering and file I/O (os.ReadFile is a stub) are outside - third-party code not encodable here.",
+			LevelText: "Bounded symbolic model checking of the real app.SetConfig/AddConfigLoader/SetConfigLoader options and configure.AddLoaders/SetLoaders/Initialize/loadConfigure with a recording binder: for every sequence of up to K options and every set of up to N loaders (three classes, unconstrained Order, empty or non-empty payload, one failing): every document of every source that was added reaches the binder exactly once, priority-ordered (file) loaders first, unordered ones in the order added; a failing loader fails Initialize; and, with the real viper behind the real ViperBinder, the effective configuration of up to N overlapping YAML documents is their deep merge in loader order (last wins, nothing lost, nothing else contributes).",
+			LevelNote: "Two layers. (1) Symbolic: 'the right documents reach the binder in the right order, none dropped' with a recording binder, unconstrained Order values and document bytes. (2) The run merge-real-viper drives the real configure.Initialize, loader.RawLoader and binder.ViperBinder from SSA with the REAL spf13/viper and YAML decoder linked into the engine and used natively on the concrete documents of each path: N (2, thorough 3) YAML documents assembled from symbolic choices of which overlapping top-level / nested / two-levels-down keys each supplies; asserted are last-wins, survival of singly supplied keys, absence of unsupplied keys (a process environment variable named like a key contributes nothing), the flattened Get(\"\") and Get after a runtime Set. viper's behaviour on other document shapes (lists, anchors, type coercion), ArgsLoader rendering and file I/O (os.ReadFile is a stub) stay outside.",
 			Technique: techDefault, DesignRef: "DESIGN.md §3 C15"},
 		&CheckDef{ID: "C16", Title: "Placeholders",
 			Runs: func(tier string) []RunSpec {
@@ -288,10 +289,11 @@ func checkDefs() map[string]*CheckDef {
 				return []RunSpec{
 					{Name: "string-values", Pkg: prc, Entry: "VerifC17String", Params: map[string]int{"N": tierPick(tier, 4, 5)}, MustCover: []string{"bound"}},
 					{Name: "scalar-family", Pkg: prc, Entry: "VerifC17Scalars", MustCover: []string{"scalars bound"}},
+					{Name: "binder-after-set", Pkg: ioc + "/configure", Entry: "VerifC15Merge", Params: map[string]int{"N": 2}, MustCover: []string{"merged", "subtree replaced at run time"}},
 				}
 			},
 			LevelText: "Bounded symbolic model checking of the real valueAware (value tag and prop shorthand), propertiesAware (prefix) and configQuote processors, Property.Unmarshall/reflectx.SetValue and strconv2.ParseAny/FormatAny: for every ASCII string of up to N bytes as the configured value, the string fields bound through value:\"${k}\", prop:\"k\", a value-tag literal and prefix:\"k\" all equal the configured string - outside five listed finding classes, each of which is reproduced natively on every run.",
-			LevelNote: "Reduced claim: string -> string only. Integers, floats, booleans, lists, maps, nested structs and pointers are converted by viper/YAML, strconv float formatting and mapstructure's reflection, none of which is encoded (mapstructure is a contract stub: string -> string identity). Alphabet: ASCII without $ # { } [ ] ( ) and comma (placeholder/bracket syntax is C16/C19). N <= 4 (thorough 5) bytes. The additional run scalar-family executes the same glue on a fixed family of 11 concrete integers and 6 concrete floats of boundary magnitude (no symbolic arithmetic: decimal formatting and float parsing are computed natively); it is what exhibits the large-integer finding.",
+			LevelNote: "Reduced claim: string -> string only. Integers, floats, booleans, lists, maps, nested structs and pointers are converted by viper/YAML, strconv float formatting and mapstructure's reflection, none of which is encoded (mapstructure is a contract stub: string -> string identity). Alphabet: ASCII without $ # { } [ ] ( ) and comma (placeholder/bracket syntax is C16/C19). N <= 4 (thorough 5) bytes. The additional run scalar-family executes the same glue on a fixed family of 11 concrete integers and 6 concrete floats of boundary magnitude (no symbolic arithmetic: decimal formatting and float parsing are computed natively); it is what exhibits the large-integer finding. The run binder-after-set executes the real ViperBinder (real viper natively) and checks that after a runtime Set of the same path, of an enclosing subtree or of a differently cased path a later Get answers from the current configuration, i.e. exactly what the store holds.",
 			Technique: techDefault, DesignRef: "DESIGN.md §3 C17"},
 		&CheckDef{ID: "C18", Title: "Expressions after substitution, validation after binding (glue)",
 			Runs: func(tier string) []RunSpec {
